@@ -19,7 +19,7 @@ structure Lim where
   dec : Nat
 deriving DecidableEq, Repr
 
-def Lim.ok (l : Lim) : Bool := l.tag == l.enc && l.enc == l.dec
+def Lim.ok (l : Lim) : Bool := l.tag == l.enc && l.enc == l.dec && decide (l.enc < 2 ^ 64)
 /-- the limit as documented, applied on both sides -/
 def Lim.documented (l : Lim) : Lim := ⟨l.tag, l.tag, l.tag⟩
 
@@ -329,10 +329,11 @@ def decode : Schema → Bytes → Except Err (Value × Bytes)
 /-- Encoder and decoder agree with each other and with the documented limits; a `nullable` never wraps
 something that could itself start with `0xf6`. -/
 def Schema.wf : Schema → Bool
+  | .uint max => decide (max < 2 ^ 64)
   | .bytes l => l.ok
   | .fixed encN decN l => encN == decN && l.ok && decide (encN ≤ l.enc)
   | .array l e => l.ok && e.wf
-  | .tuple encN decN fs => encN == decN && fs.wf
+  | .tuple encN decN fs => encN == decN && decide (encN < 2 ^ 64) && fs.wf
   | .tcons h t => h.wf && t.wf
   | .nullable s => s.wf && (match s with | .tuple _ _ _ => true | _ => false)
   | .nullAsEmpty s => s.wf && (match s with | .array _ _ => true | _ => false)
@@ -419,5 +420,41 @@ def allocFactor : Nat := 6
 def allocSlack : Nat := 65536
 def Schema.allocBound (s : Schema) (inputLen : Nat) : Nat :=
   allocFactor * inputLen + s.staticPrealloc + allocSlack
+
+end F3.Cbor
+
+namespace F3.Cbor
+/-! ### values within the decoder's limits -/
+
+/-- number of elements of a `cons`-list -/
+def Value.len : Value → Nat
+  | .cons _ t => t.len + 1
+  | _ => 0
+
+/-- `f` holds of every element of a `cons`-list (and the list is proper) -/
+def Value.all (f : Value → Bool) : Value → Bool
+  | .nil => true
+  | .cons v t => f v && t.all f
+  | _ => false
+
+/-- The value has the shape the schema describes and every length in it respects the limit the
+*decoder* enforces. `decode_ok_within`: the decoder only ever returns such values. -/
+def Value.within : Schema → Value → Bool
+  | .uint max, .uint n => decide (n ≤ max)
+  | .int64, .int i => decide (-(2 ^ 63) ≤ i ∧ i < 2 ^ 63)
+  | .bool, .bool _ => true
+  | .bytes l, .bytes b => decide (b.length ≤ l.dec)
+  | .fixed _ decN l, .bytes b => decide (b.length = decN ∧ decN ≤ l.dec)
+  | .cid, .bytes c => decide (c.length < 512) && cidValid c
+  | .bigint, .big _ => true
+  | .bitfield, .bytes b => decide (b.length ≤ 32768)
+  | .array l e, vs => decide (vs.len ≤ l.dec) && vs.all (Value.within e)
+  | .tuple _ _ fs, vs => Value.within fs vs
+  | .tnil, .nil => true
+  | .tcons h t, .cons v vs => Value.within h v && Value.within t vs
+  | .nullable _, .null => true
+  | .nullable s, v => Value.within s v
+  | .nullAsEmpty s, v => Value.within s v
+  | _, _ => false
 
 end F3.Cbor
